@@ -1,6 +1,7 @@
 package parser
 
 import (
+	"bytes"
 	"encoding/base64"
 	"fmt"
 	"io"
@@ -120,12 +121,17 @@ func Decode(r io.Reader, binaryFrame bool) (*Packet, error) {
 }
 
 func DecodeWithLen(r io.Reader, binaryFrame bool, len int) (*Packet, error) {
-	buf := make([]byte, len)
-	_, err := io.ReadFull(r, buf)
+	if len < 0 {
+		return nil, errInvalidPacketSize
+	}
+	// len is declared by the peer: let the buffer grow as data
+	// actually arrives instead of allocating len bytes up front.
+	var buf bytes.Buffer
+	_, err := io.CopyN(&buf, r, int64(len))
 	if err != nil {
 		return nil, err
 	}
-	return decode(buf, binaryFrame)
+	return decode(buf.Bytes(), binaryFrame)
 }
 
 func decode(data []byte, binaryFrame bool) (*Packet, error) {
